@@ -495,3 +495,93 @@ class IntEval:
                 continue
             raise AnalysisError("IntEval: statement %s" % norm(s)[:50])
         return ("fall", st)
+
+
+def sym_expand(ctx, fi, expr, env=None, stop=(), depth=0, subst=None):
+    """Expression `expr` (in function `fi`) rewritten to a normal form in
+    which (a) a local name with exactly one definition among the statements
+    feasible under the valuation `env` is replaced by that definition,
+    (b) a conditional expression whose test is an identity test against None
+    of a quantity fixed by `env` is replaced by the selected arm, and (c) a
+    call of a method of the same class with a single feasible `return` is
+    replaced by the returned expression with actuals substituted.  Returns
+    the normalised source text.  Names in `stop` are kept."""
+    from .flow import Flow, NONE, NOTNONE
+    env = dict(env or {})
+    subst = dict(subst or {})
+    if depth > 4:
+        raise AnalysisError("sym_expand: nesting too deep in %s" % fi.qualname)
+    g = build_cfg(fi.node)
+    fl = Flow(g, env).run()
+    visited = fl.visited
+    defs = {}
+    for n in g.nodes:
+        if n.id in visited and n.kind == "stmt" and isinstance(n.ast, ast.Assign) and len(n.ast.targets) == 1 and isinstance(n.ast.targets[0], ast.Name):
+            defs.setdefault(n.ast.targets[0].id, []).append(n.ast.value)
+        elif n.id in visited and n.kind == "stmt" and isinstance(n.ast, (ast.AugAssign, ast.For)):
+            for t in ast.walk(n.ast.target):
+                if isinstance(t, ast.Name):
+                    defs.setdefault(t.id, []).append(None)
+        elif n.id in visited and n.kind == "for":
+            for t in ast.walk(n.ast.target):
+                if isinstance(t, ast.Name):
+                    defs.setdefault(t.id, []).append(None)
+
+    def decide(test):
+        if isinstance(test, ast.Compare) and len(test.ops) == 1 and isinstance(test.ops[0], (ast.Is, ast.IsNot)) and norm(test.comparators[0]) == "None":
+            v = env.get(norm(test.left))
+            if v in (NONE, NOTNONE):
+                r = (v == NONE)
+                return r if isinstance(test.ops[0], ast.Is) else not r
+        return None
+
+    active = set()
+
+    def ex(e):
+        if isinstance(e, ast.Name) and isinstance(e.ctx, ast.Load):
+            if e.id in subst:
+                return subst[e.id]
+            if e.id in stop or e.id in active:
+                return e
+            d = defs.get(e.id)
+            if d and len(d) == 1 and d[0] is not None:
+                active.add(e.id)
+                try:
+                    return ex(d[0])
+                finally:
+                    active.discard(e.id)
+            return e
+        if isinstance(e, ast.IfExp):
+            r = decide(e.test)
+            if r is True:
+                return ex(e.body)
+            if r is False:
+                return ex(e.orelse)
+        if isinstance(e, ast.Call) and isinstance(e.func, ast.Attribute) and isinstance(e.func.value, ast.Name) and e.func.value.id == "self" and fi.cls is not None:
+            m = fi.cls.methods.get(e.func.attr)
+            if m is not None and not any(isinstance(a, ast.Starred) for a in e.args) and not any(k.arg is None for k in e.keywords):
+                mg = build_cfg(m.node)
+                mfl = Flow(mg, {k: v for k, v in env.items() if k.startswith("self.")}).run()
+                rets = [n for n in mg.nodes if n.id in mfl.visited and n.kind == "stmt" and isinstance(n.ast, ast.Return) and n.ast.value is not None]
+                if len(rets) == 1:
+                    params = [p for p in m.positional if p != "self"]
+                    sub = {}
+                    for p, a in zip(params, e.args):
+                        sub[p] = ex(a)
+                    for k in e.keywords:
+                        sub[k.arg] = ex(k.value)
+                    ctx.touch(m)
+                    return ast.parse(sym_expand(ctx, m, rets[0].ast.value, {k: v for k, v in env.items() if k.startswith("self.")}, stop, depth + 1, sub), mode="eval").body
+        if isinstance(e, (ast.expr_context, ast.operator, ast.unaryop, ast.boolop, ast.cmpop)):
+            return e
+        kw = {}
+        for field, val in ast.iter_fields(e):
+            if isinstance(val, ast.AST):
+                kw[field] = ex(val)
+            elif isinstance(val, list):
+                kw[field] = [ex(x) if isinstance(x, ast.AST) else x for x in val]
+            else:
+                kw[field] = val
+        return type(e)(**kw)
+
+    return norm(ex(expr))
